@@ -662,6 +662,15 @@ impl Check for IoErrCheck {
         let mut rng = Rng::new(seed, "workload");
         let mut k = gen_knobs(&mut rng, avoid);
         k.w_top = [40, 2, *rng.pick(&[4, 10]), 3, *rng.pick(&[2, 5]), 2, 0];
+        if avoid.iter().any(|a| a == "index_with_io_error") {
+            k.w_top[3] = 0;
+        } else if rng.chance(0.4) {
+            // index-heavy variant: few labels / keys so that index maintenance runs inside the faulted commits
+            k.n_labels = 2;
+            k.n_keys = 2;
+            k.w_top[3] = 10;
+            k.index_universe = true;
+        }
         k.n_ops = rng.range(1, 6) as usize;
         k.max_txn_ops = rng.range(1, 5) as usize;
         k.big_values = rng.chance(0.05);
